@@ -9,7 +9,11 @@ PID = "C02"
 IMPORTS = "From OV Require Import Model.Vector Model.Matrix Model.MatOps Model.Solve."
 MODEL_VO = ["Model/Solve.vo"]
 RULE = ("square matrices of order 1..8 over Rat/f64/Complex: dense, sparse-patterned, permutation-like (odd and even numbers of exchanges), "
-        "triangular, singular (rank n-1, rank <= n-2, zero rows/columns, all-ones); kinds det, inverse, lu; adversarial family cplx-extreme-scale "
+        "triangular, singular (rank n-1, rank <= n-2, zero rows/columns, all-ones); kinds det, inverse, lu; round four: 18 special structures "
+        "(identity, scalar, diagonal, unit triangular, anti-diagonal, cyclic shift, Toeplitz, arrow, all entries +-1, columns of equal magnitude, symmetric, "
+        "gapped band, diagonal plus corners) at Rat / f64 / Complex (columns times 1, +-i, 0.6+0.8i, 1+i), Complex matrices of special values only, signed zeros, "
+        "matrices scaled by 2^+-k (inverse k <= 900, determinant k*n <= 900), orders 9..12 (Rat) and 9..24 (f64; ..32 thorough), lower-triangular and "
+        "sparse-patterned float families, sparse-patterned Rat (singular patterns included); adversarial family cplx-extreme-scale "
         "(well-conditioned Complex<f64> matrices with |z| in 1e-200..1e-155 and 1e155..1e200: recorded finding cplx-sqmod-range); "
         "distinct = distinct executor line; non-trivial = order >= 2")
 TRUSTED = c01.TRUSTED
@@ -36,7 +40,9 @@ MANIFEST = dict(
           "check (Rat vs Qc exact; f64/Complex<f64> vs primitive floats, bit-compared) on orders 1..8 of dense, zero-leading, permutation-like, "
           "triangular and singular (rank n-1, rank <= n-2, zero rows/columns, all-ones) matrices with odd and even numbers of exchanges; an "
           "independent exact determinant (Fraction elimination, real and complex), the two-sided inverse identity and P*A = L*U itself are "
-          "evaluated on the implementation's answers to search for a failing input; the operand is compared with a clone taken before the call."),
+          "evaluated on the implementation's answers to search for a failing input; the operand is compared with a clone taken before the call. "
+          "Structured families (round four): special structures, Complex entries on the axes / of unit modulus / with |re| = |im|, signed zeros, "
+          "scaling by 2^+-k, orders above 8, sparse patterns."),
     note=("Partial: rounding accuracy of det/inverse over f64/Complex<f64> is tied (bitwise against the float model) and searched (1e-10/1e-9 "
           "scaled tolerances), not proved. 'Matrix left intact' is true by typing in a value model; in Rust it is a run-time observation of the "
           "executor (snapshot before/after). PivLaws (abs x = 0 <-> x = 0; x <> 0 -> 0 < |x|; not |x| < 0) is an auxiliary hypothesis the code "
@@ -173,6 +179,7 @@ def generate(rng, tier):
         for i in range(n): A[i*n+i] += complex(n + 3, 0)
         for i in range(n): A[i*n+0] = A[i*n+0] * tcol
         cases.append(mk('cplx', "det", n, A, "cplx-extreme-scale-det", True))
+    cases += gen_special(rng, tier)
     # non-square: rejected
     g = rng.fork("bad")
     for r in range(0, 4):
@@ -184,6 +191,100 @@ def generate(rng, tier):
                 term = ("fl_res %s (@determinant %s %s)" % (fl, ar, coq_mat('rat', M))) if kind == "det" else \
                        ("fl_res (@fl_mat %s %s) (@inverse %s %s)" % (ar, fl, ar, coq_mat('rat', M)))
                 cases.append(Case('rat', "mat.%s %s" % (kind, tok_mat('rat', M)), term, meta={"bad": True, "kind": kind}, family="rejects"))
+    return cases
+
+# ---- round four (package specA): special structure, special values, magnitudes, orders above 8 (findings/special-values-specA.md)
+def gen_special(rng, tier):
+    cases = []
+    quick = tier == "quick"
+    rot = c01.rot
+    # (s1) special STRUCTURE (identity, scalar, diagonal, unit triangular, anti-diagonal, cyclic shift, all entries +-1, columns of
+    # equal magnitude, symmetric, arrow, ...) at all three element kinds; det, inverse and (Rat) the factorisation
+    g = rng.fork("special-structure")
+    for n in (range(1, 7) if quick else range(1, 9)):
+        for name, A in special_matrices(g, n):
+            for kind in ("det", "inverse", "lu"):
+                cases.append(mk('rat', kind, n, A, "special-rat-%s-%s" % (name, kind), n >= 2))
+            Af = [float(x) for x in A]
+            us = [g.choice([1, 1j, -1j, complex(0.6, 0.8), complex(-0.8, 0.6), 1 + 1j]) for _ in range(n)]
+            Ac = [complex(Af[i*n+j]) * us[j] for i in range(n) for j in range(n)]
+            for kind in (("det", "inverse") if not quick else rot(g, ["det", "inverse"], 1)):
+                cases.append(mk('f64', kind, n, Af, "special-f64-%s-%s" % (name, kind), n >= 2))
+            for kind in ("det", "inverse"):
+                cases.append(mk('cplx', kind, n, Ac, "special-cplx-%s-%s" % (name, kind), n >= 2))
+    # (s2) Complex<f64> matrices whose entries are ALL special values (+-1, +-i, 0.6+0.8i, 1+-i, 2, 1/2, 3+4i, 0)
+    g = rng.fork("special-cplx-values")
+    for t in range(18 if quick else 150):
+        n = 1 + (t % 6)
+        A = special_cplx_matrix(g, n)
+        if A is None: continue
+        for kind in ("det", "inverse"):
+            cases.append(mk('cplx', kind, n, A, "special-cplx-values-" + kind, n >= 2))
+    # (s3) signed zeros
+    g = rng.fork("neg-zero")
+    for t in range(12 if quick else 80):
+        n = 1 + (t % 6)
+        fam = ["zero-lead", "perm", "upper", "lower"][t % 4]
+        for _ in range(20):
+            A = c01.gen_matrix(g, n, fam, 'f64')
+            if c01.nonsingular(A, n): break
+        if not c01.nonsingular(A, n): continue
+        A = [(-0.0 if (x == 0 and g.chance(1, 2)) else x) for x in A]
+        for kind in ("det", "inverse"):
+            cases.append(mk('f64', kind, n, A, "f64-neg-zero-" + kind, n >= 2))
+    # (s4) magnitudes: the whole matrix scaled by 2^+-k.  inverse: k = 200..900 (f64, half of them beyond 2^+-512 where the square of an entry leaves the range), 100..300 (Complex, inside the range where
+    # re^2+im^2 is normal); determinant: k*n <= 960 so that the exact determinant (scaled by 2^(+-k n)) is a normal number
+    g = rng.fork("extreme-scale")
+    for t in range(36 if quick else 240):
+        n = 1 + (t % 6)
+        fam = ["dense", "zero-lead", "perm", "neg-dominant", "upper", "lower"][(t // 6) % 6]
+        for _ in range(20):
+            A = c01.gen_matrix(g, n, fam, 'f64')
+            if c01.nonsingular(A, n): break
+        if not c01.nonsingular(A, n): continue
+        cplx = t % 3 == 2
+        sg = 1 if g.chance(1, 2) else -1
+        ki = g.range(100, 300) if cplx else (g.range(520, 900) if t % 2 == 0 else g.range(200, 519))   # beyond 2^+-512 squares leave the range
+        kd = min(ki, 900 // n) if not cplx else min(ki, 450 // n)
+        if cplx: A = [complex(x, c01.fval(g) if g.chance(1, 2) else 0.0) for x in A]
+        elt = 'cplx' if cplx else 'f64'
+        cases.append(mk(elt, "inverse", n, [x * 2.0 ** (sg * ki) for x in A], "%s-scaled-2^k-inverse" % elt, n >= 2))
+        cases.append(mk(elt, "det", n, [x * 2.0 ** (sg * kd) for x in A], "%s-scaled-2^k-det" % elt, n >= 2))
+    # (s5) orders above 8: Rat 9..12, f64 9..24 (thorough: ..32)
+    g = rng.fork("large-order")
+    for n in (rot(g, [9, 10, 11, 12], 2) if quick else [9, 10, 11, 12]):
+        for fam in ["dense", "perm"]:
+            A = c01.int_matrix(g, n, fam)
+            if A is None: continue
+            for kind in ("det", "inverse", "lu"):
+                cases.append(mk('rat', kind, n, [Fraction(int(x)) for x in A], "rat-order-9..12-%s-%s" % (fam, kind), True))
+    for n in (sorted(set([9, 16, 17] + rot(g, list(range(9, 25)), 3))) if quick else list(range(9, 33))):
+        for fam in (["dense", "zero-lead", "perm"] if not quick else rot(g, ["dense", "zero-lead", "perm"], 2)):
+            A = c01.int_matrix(g, n, fam)
+            if A is None: continue
+            for kind in ("det", "inverse"):
+                cases.append(mk('f64', kind, n, A, "f64-order-9..32-%s-%s" % (fam, kind), True))
+    # (s6) the float families the first version lacked: lower triangular, sparse-patterned (the quantifier names both)
+    g = rng.fork("flt-extra")
+    for elt in ('f64', 'cplx'):
+        for fam in ["lower", "sparse"]:
+            for t in range(6 if quick else 40):
+                n = 1 + (t % 8)
+                A = None
+                for _ in range(30):
+                    A = c01.gen_matrix(g, n, "lower" if fam == "lower" else "dense", 'f64')
+                    if fam == "sparse": A = [(x if g.chance(1, 3) else 0.0) for x in A]
+                    if c01.nonsingular(A, n): break
+                if A is None or not c01.nonsingular(A, n): continue
+                if elt == 'cplx': A = [complex(x, (c01.fval(g) if g.chance(1, 2) else 0.0) if x != 0 else 0.0) for x in A]
+                for kind in ("det", "inverse"):
+                    cases.append(mk(elt, kind, n, A, "%s-%s-%s" % (elt, fam, kind), n >= 2))
+    # sparse-patterned exact: includes singular patterns (zero determinant must be reported as exactly zero)
+    for t in range(16 if quick else 120):
+        n = 1 + (t % 8)
+        A = [(c01.rval(g) if g.chance(1, 3) else Fraction(0)) for _ in range(n * n)]
+        for kind in ("det", "inverse", "lu"):
+            cases.append(mk('rat', kind, n, A, "rat-sparse-" + kind, n >= 2))
     return cases
 
 def case_from_json(j):
@@ -327,7 +428,13 @@ def oracle(case, items):
             STATS["inverse_singular_skipped"] += 1
             return None       # singular: outside the quantifier
         if items[-1][0] == 'P':
-            return "inverse panicked (%s) on a nonsingular matrix" % items[-1][1] if exact else None
+            if exact: return "inverse panicked (%s) on a nonsingular matrix" % items[-1][1]
+            # Complex<f64> (round four): a panic is a failure as soon as the exact complex determinant is non-zero
+            # (float division never panics; an index or guard panic on a nonsingular matrix is not "singular input")
+            try:
+                if cdet_exact(A, n) != (0, 0): return "inverse panicked (%s) on a Complex matrix whose exact determinant is non-zero" % items[-1][1]
+            except (OverflowError, ValueError): pass
+            return None
         (r, c, X), _ = parse_items_mat(items, 0, elt)
         if (r, c) != (n, n): return "inverse has shape %dx%d" % (r, c)
         STATS["inverse_identity_checked"] += 1
